@@ -731,7 +731,9 @@ theorem cfi_frame_spec (a : Args) (script : Script) (f : CfiFrame)
        `MdProofs.C06Walk` holds with the real walker's record in the place of `walkerOf`;
     2. `SymbolFile::walk_frame` of the walker model (`walkFrameCfi`, through its own range table) is
        C06's `walkFrame` run with the real walker's record (`walkFrame_eq_c06` at `W`);
-    3. `walk_with_stack_cfi` of the walker model and `walkCfiReal cw` — the same rule lines on the
+    3. (little-endian stack memory; the real walker's big-endian reads are modelled and tied, the
+       walk-level bridge `walkCfiReal_bridge` is proved for little-endian memory)
+       `walk_with_stack_cfi` of the walker model and `walkCfiReal cw` — the same rule lines on the
        real walker — fail together and, when they succeed, report every register of the context type
        alike: the same value, or unknown on both sides. -/
 theorem walkcfi_uses_cfiwalker (x : Walk.CfiIn) (o0 : Walk.CfiOut) (instr modBase : Nat)
@@ -745,7 +747,7 @@ theorem walkcfi_uses_cfiwalker (x : Walk.CfiIn) (o0 : Walk.CfiOut) (instr modBas
         match Cfi.walkFrame (recOf rec) modBase W with
         | none => Walk.walkFrameCfi sf (Walk.cfiTable sf) modBase x o0 instr = none
         | some _ => ∃ o, Walk.walkFrameCfi sf (Walk.cfiTable sf) modBase x o0 instr = some o) ∧
-    (∀ (init : String) (adds : List String),
+    (∀ (init : String) (adds : List String), x.mem.be = false →
         match Walk.walkCfi x o0 init adds with
         | none => ∃ w', walkCfiReal cw ((init :: adds).map utf8) = .ok (false, w')
         | some o => ∃ w', walkCfiReal cw ((init :: adds).map utf8) = .ok (true, w') ∧
@@ -762,10 +764,10 @@ theorem walkcfi_uses_cfiwalker (x : Walk.CfiIn) (o0 : Walk.CfiOut) (instr modBas
       rw [hc] at hb
       obtain ⟨_, _, o, _, _, _, ho, _⟩ := hb
       exact ⟨o, ho⟩
-  · intro init adds
+  · intro init adds hle
     have hb := walkCfi_eq_c06 x W hsim o0 init adds
     have hwf : validityWf cw.cpu.tbl cw.calleeValidity = true := cwOf_validityWf x o0 instr modBase hvalid
-    have hr := walkCfiReal_bridge cw (fwdOf x.arch o0) hwf rfl ((init :: adds).map utf8)
+    have hr := walkCfiReal_bridge cw (fwdOf x.arch o0) hwf hle ((init :: adds).map utf8)
     cases hc : Cfi.walkCfi W ((init :: adds).map utf8) with
     | none =>
       rw [hc] at hb hr
